@@ -134,6 +134,7 @@ fn apply(base: &Base, ch: &mut Chooser) -> (Vec<u8>, u32, Vec<(&'static str, u32
     (img, size, devs)
 }
 
+static UNIFORM: std::sync::atomic::AtomicBool = std::sync::atomic::AtomicBool::new(false);
 fn opts_for(kind: u32, img: &[u8], memory_model: bool) -> BatOpts {
     let mut o = BatOpts { vbe_memory_model: true, elf_names: false };
     if kind == bi::VBE && img.len() > 555 && img[555] > 7 {
@@ -142,7 +143,7 @@ fn opts_for(kind: u32, img: &[u8], memory_model: bool) -> BatOpts {
     if kind == bi::ELF && img.len() >= 20 + 192 {
         // names only when the designated string-table entry is the one the harness built
         let (n, es, sx) = (rd32(img, 8), rd32(img, 12), rd32(img, 16));
-        o.elf_names = es == 64 && n <= 3 && sx < n;
+        o.elf_names = es == 64 && n <= 3 && sx < n && !UNIFORM.load(std::sync::atomic::Ordering::Relaxed);
     }
     o
 }
@@ -189,6 +190,7 @@ fn tag_level(ctx: &mut Ctx, arena: &Arena, kind: u32, img: &[u8], memory_model: 
                 Out::Val(Ok(g)) => {
                     let recs = {
                         let mut b = Bat::new(ctx, p);
+                        b.derived = !UNIFORM.load(std::sync::atomic::Ordering::Relaxed);
                         battery::tag_level(&mut b, kind, g, o);
                         b.recs
                     };
@@ -231,6 +233,7 @@ fn region_level(ctx: &mut Ctx, arena: &Arena, region: &[u8], elf_names: bool, me
                 let order: Vec<usize> = if pass == 0 { (0..26).collect() } else { (0..26).rev().collect() };
                 for slot in order {
                     let mut b = Bat::new(ctx, p);
+                    b.derived = !UNIFORM.load(std::sync::atomic::Ordering::Relaxed);
                     match slot {
                         0..=21 => {
                             let kind = slot as u32;
@@ -350,7 +353,10 @@ fn run(ctx: &mut Ctx) {
     let arena = Arena::new(4);
     let st = Arena::new(1);
     st.fill(0xEE);
-    let strtab_base = st.place_right(STRTAB) as u64;
+    // cross-configuration runs must not embed addresses in the images
+    let strtab_base = if ctx.uniform() { 0 } else { st.place_right(STRTAB) as u64 };
+    let uniform = ctx.uniform();
+    UNIFORM.store(uniform, std::sync::atomic::Ordering::Relaxed);
     let quick = ctx.quick();
     let budget = if quick { 1 } else { 2 };
     let all = bases(strtab_base);
